@@ -4,6 +4,7 @@ import SkgVerif.Gen.FitSigmaReal
 import Mathlib.Analysis.SpecialFunctions.Sqrt
 import Mathlib.Analysis.SpecialFunctions.Exp
 import Mathlib.Tactic
+import SkgVerif.Props.Transcribed.C05
 /-!
 # C05 — automatic fits stay in bounds, are locally optimal and ignore empty lag classes
 
